@@ -73,6 +73,8 @@ type sess struct {
 	ccfg            *security.SecurityConfig
 	recs            []recording
 	resumedHonestly bool
+	minted          bool // pre-shared through a claim id instead of negotiated
+	learnIdentity   bool
 }
 
 func serverConfig() *security.SecurityConfig {
@@ -146,7 +148,44 @@ func findEntry(sid string) *security.SessionEntry {
 	return nil
 }
 
+// establishMinted: the session is not negotiated but pre-shared through a claim id: the server side mints
+// it into its cache (MintClaimSession), the client imports the claim id into its own cache.
+func (w *world) establishMinted(variant int) string {
+	scache := ownCache
+	if scache == nil {
+		scache = security.GetSessionCache()
+	}
+	ccfg := kit.BaseConfig(security.SecurityRequired, security.SecurityOptional, security.AuthClaimToBe)
+	ccfg.PeerName = fmt.Sprintf("<127.0.0.1:97%02d>", len(w.sessions))
+	opts := security.MintClaimOptions{Sinful: ccfg.PeerName, Birthdate: 1700000000 + int64(len(w.sessions)), SequenceNum: 7 + variant, ValidCommands: []int{60011}}
+	if variant%2 == 1 {
+		opts.Lifetime = time.Hour
+	}
+	m, err := security.MintClaimSession(scache, opts)
+	if err != nil {
+		return "C06 harness: cannot mint a claim session: " + err.Error()
+	}
+	sid, err := security.ImportClaimSession(ccfg.SessionCache, m.ClaimID(), security.ClaimSessionOptions{PeerAddr: ccfg.PeerName})
+	if err != nil || sid != m.SessionID() {
+		return fmt.Sprintf("C06 harness: cannot import the minted claim (%v, %q vs %q)", err, sid, m.SessionID())
+	}
+	ccfg.SessionID = sid
+	s := &sess{sid: sid, hasKey: true, alive: true, ccfg: ccfg, minted: true}
+	e := findEntry(sid)
+	if e == nil || e.KeyInfo() == nil {
+		return "minting registered no keyed session on the minter's side"
+	}
+	s.key = append([]byte(nil), e.KeyInfo().Data...)
+	w.sessions = append(w.sessions, s)
+	// the identity a resumption restores is whatever the first honest resumption reports
+	s.learnIdentity = true
+	return w.honestResume(s, 0)
+}
+
 func (w *world) establish(variant int) string {
+	if variant >= 4 {
+		return w.establishMinted(variant)
+	}
 	withKey := variant&1 == 0
 	authed := variant&2 == 0
 	lvl := security.SecurityNever
@@ -244,6 +283,10 @@ func (w *world) honestResume(s *sess, n int) string {
 	}
 	if !so.neg.Encryption || !so.st.IsEncrypted() || !cst.IsEncrypted() {
 		return "resumed session is not encrypted on both ends"
+	}
+	if s.learnIdentity {
+		s.learnIdentity = false
+		s.authed, s.user = so.neg.Authentication, so.neg.User
 	}
 	if so.neg.Authentication != s.authed || so.neg.User != s.user {
 		return fmt.Sprintf("server: resumed session reports authenticated=%v user=%q, the original handshake established authenticated=%v user=%q", so.neg.Authentication, so.neg.User, s.authed, s.user)
@@ -554,7 +597,7 @@ func runCase(c Case) (string, *world) {
 				// the session was filed by the handshake in the global cache: invalidating it there kills it;
 				// some applications also clear their own cache, which must make no difference
 				security.InvalidateSession(s.sid)
-				if ownCache != nil && op.V%2 == 1 {
+				if ownCache != nil && (op.V%2 == 1 || s.minted) { // a minted session was filed in the server's own cache by the application
 					ownCache.Invalidate(s.sid)
 				}
 				s.alive = false
@@ -582,7 +625,7 @@ func genCase(t *rapid.T) Case {
 	var c Case
 	c.Own = rapid.Bool().Draw(t, "own")
 	c.Map = rapid.Bool().Draw(t, "map")
-	c.Ops = append(c.Ops, Op{K: "establish", V: rapid.IntRange(0, 3).Draw(t, "v0")})
+	c.Ops = append(c.Ops, Op{K: "establish", V: rapid.IntRange(0, 5).Draw(t, "v0")})
 	n := rapid.IntRange(3, 12).Draw(t, "nops")
 	for i := 0; i < n; i++ {
 		k := rapid.SampledFrom([]string{"establish", "resume", "resume", "expire", "invalidate", "attack", "attack", "attack", "replay", "replay"}).Draw(t, "op")
@@ -624,7 +667,7 @@ func TestC06Histories(t *testing.T) {
 // TestC06Sweep: every attack kind at every point of a session's lifetime.
 func TestC06Sweep(t *testing.T) {
 	bad := 0
-	for est := 0; est < 4; est++ {
+	for est := 0; est < 6; est++ {
 		for _, life := range []string{"fresh", "resumed1", "resumed3", "expired-lazy", "expired-swept", "invalidated"} {
 			for kind := 0; kind < 9; kind++ {
 				for _, rr := range []bool{true, false} {
@@ -686,7 +729,7 @@ func TestC06Sweep(t *testing.T) {
 		}
 	}
 	ev.Exhaustive("4 establishment kinds x 12 hostile request-ad attribute sets x {key holder, wrong key, no key} x {reply requested, not} x {global, own cache}")
-	ev.Exhaustive("4 establishment kinds x 6 lifetime points x 9 attack kinds x {reply requested, not} x {server on the global cache, server with its own cache}, each followed by an honest resume and replays of both directions")
+	ev.Exhaustive("6 establishment kinds (4 negotiated, 2 minted from a claim id) x 6 lifetime points x 9 attack kinds x {reply requested, not} x {server on the global cache, server with its own cache}, each followed by an honest resume and replays of both directions")
 }
 
 func TestC06Replay(t *testing.T) {
